@@ -396,6 +396,10 @@ func runC20(r *Run) {
 		r.check(trueOnlyBehind(f, cut, isExact), "isDisabled:exact-name-match", r.fpos(f), "a name is exempt (or counted as already seen) only when it equals a listed name byte for byte",
 			"cookie names are matched by something other than exact equality (cookie names are case-sensitive): a cookie whose name differs only in letter case from an excepted or already decrypted one passes through unencrypted / undecrypted, so client-chosen text reaches the handler")
 	})
+
+	r.rule("R6", "function-valued Config fields the middleware calls are never nil (E1): set by configDefault on every path, also when no config is passed", func() {
+		configFuncFieldsRule(r, encPkg, "encryptcookie")
+	})
 }
 
 // isCfgNextSkip: this c.Next() call sits on the `cfg.Next(c) == true` edge (documented bypass).
